@@ -485,7 +485,7 @@ def run(run, tier, seed, replay_case=None):
     run.coverage["trusted_base"] = TRUSTED
     model = C.build_model(PROP)
 
-    n = int(os.environ.get("VERIF_N", "0")) or (12 if tier == "quick" else 150)
+    n = int(os.environ.get("VERIF_N", "0")) or (12 if tier == "quick" else 120)
     cases = list(C.load_corpus(PROP)) + list(FIXED) + [KF_EXCL] + gen_cases(seed, n, "q" if tier == "quick" else "t")
     if replay_case is not None:
         cases = [replay_case]
